@@ -31,13 +31,15 @@ def flatten(e):
         if kv.get("closed"):
             o["k"] = "closed"
         o["n"] = int(kv.get("n", 0))
-        o["b"] = bool(kv.get("loop"))
+        o["b"] = bool(kv.get("starts"))
     elif ev in ("c.send", "c.sent"):
         o["k"] = kv.get("kind", "")
     elif ev == "e.write":
         o["k"] = kv.get("kind", "")
         o["b"] = bool(kv.get("whole", True))
-    elif ev in ("t.c2s.write", "t.c2s.read", "t.s2c.write", "t.s2c.read", "e.read"):
+    elif ev in ("f.reply", "f.unsol"):
+        o["k"] = kv.get("kind", "")
+    elif ev in ("t.c2s.write", "t.c2s.read", "t.s2c.write", "t.s2c.read", "e.read", "f.read"):
         o["n"] = int(kv.get("frags", 0))
     elif ev == "c.take":
         o["b"] = bool(kv.get("err")) or bool(kv.get("missing"))
@@ -77,7 +79,7 @@ def tla_set(xs):
     return "{" + ", ".join('"%s"' % x for x in sorted(xs)) + "}"
 
 
-def trace_cfg(path, runs, cap, sig, badsig, design=None):
+def trace_cfg(path, runs, cap, sig, badsig, design=None, inv="TraceInv", emit=()):
     d = dict(DESIGN)
     d.update(design or {})
     with open(path, "w") as f:
@@ -89,18 +91,19 @@ CONSTANTS
   StepBeh = {"ok", "err", "panic"}
   SigRuns = %s
   BadSigRuns = %s
-  EmitRuns = {}
+  EmitRuns = %s
   WithClose = TRUE
   Serial = FALSE
   MergedExit = %s
   LateClose = %s
   NoRun = ""
   MaxEnv = 100000
-INVARIANT TraceInv
+  MaxUnsol = 100000
+INVARIANT %s
 CONSTRAINT HighWater
 POSTCONDITION Accepted
-""" % (tla_set(runs), cap, tla_set(sig), tla_set(badsig),
-       "TRUE" if d["MergedExit"] else "FALSE", "TRUE" if d["LateClose"] else "FALSE"))
+""" % (tla_set(runs), cap, tla_set(sig), tla_set(badsig), tla_set(emit),
+       "TRUE" if d["MergedExit"] else "FALSE", "TRUE" if d["LateClose"] else "FALSE", inv))
 
 
 def merge_env(evs):
@@ -120,11 +123,20 @@ def merge_env(evs):
         if ev == "t.s2c.read" and role == "env:reader":
             out.append(dict(e, ev="e.read"))
             continue
+        # sessions against the scripted breaking server (C08)
+        if role == "env:writer" and ev == "t.s2c.write":
+            continue
+        if role == "env:reader" and ev == "t.c2s.read" and any(x["ev"].startswith("f.") or x["ev"].startswith("c.") for x in evs[:50]):
+            out.append(dict(e, ev="f.read"))
+            continue
+        if role.startswith("env:") and ev == "t.c2s.rclose":
+            out.append(dict(e, ev="f.close_in"))
+            continue
         out.append(e)
     return out
 
 
-def validate(ctx, sessions, runs, cap, sig, badsig, design=None, label="trace"):
+def validate(ctx, sessions, runs, cap, sig, badsig, design=None, label="trace", inv="TraceInv", emit=()):
     """sessions: list of (id, [hook events]).  Returns (ok, info).  One TLC start for all sessions
     of one configuration, concatenated with reset lines."""
     lines, owner = [], []
@@ -139,7 +151,7 @@ def validate(ctx, sessions, runs, cap, sig, badsig, design=None, label="trace"):
     tpath = os.path.join(ctx.tmp, "%s-%d.ndjson" % (label, len(ctx.tlc_runs)))
     common.write_ndjson(tpath, lines)
     cfg = tpath + ".cfg"
-    trace_cfg(cfg, runs, cap, sig, badsig, design)
+    trace_cfg(cfg, runs, cap, sig, badsig, design, inv=inv, emit=emit)
     r = ctx.tlc("ATPTrace", cfg, workers=1, env={"VERIF_TRACE": tpath}, timeout=1200, dfs=True,
                 allow_violation=True)
     m = re.search(r'<<"HIGHWATER", (\d+), (\d+)>>', r.out)
@@ -201,6 +213,9 @@ def mc_cfg(path, consts, invariants=(), properties=(), spec="Spec", constraint=N
              MergedExit="TRUE" if DESIGN["MergedExit"] else "FALSE",
              LateClose="TRUE" if DESIGN["LateClose"] else "FALSE")
     d.update(consts)
+    if spec.startswith("F"):          # ATPClientEnv extends ATPServerEnv: both bounds are constants there
+        d.setdefault("MaxEnv", 0)
+        d.setdefault("MaxUnsol", 1)
     subst = {"Runs", "StepBeh", "SigRuns", "BadSigRuns", "EmitRuns", "NoRun"}
     with open(path, "w") as f:
         f.write("SPECIFICATION %s\nCONSTANTS\n" % spec)
